@@ -78,6 +78,7 @@ class PlainPayload:
     deep: int = 0
     raises_late: tuple | None = None
     nopickle: str | None = None
+    retexc: tuple | None = None
 
     def raises(self):
         return tuple(EXC[n] for n in self.raises_names)
@@ -118,6 +119,7 @@ def _visual_payload_class():
         deep: int = 0
         raises_late: tuple | None = None
         nopickle: str | None = None
+        retexc: tuple | None = None
 
         def raises(self):
             return tuple(EXC[n] for n in self.raises_names)
@@ -176,6 +178,10 @@ def work(payload, *args, **kwargs):
     if late is not None:
         payload.raises_names = tuple(late)  # e.g. a pragma found in the input decides which errors are to be captured
     if payload.behave == "ok":
+        rx = getattr(payload, "retexc", None)
+        if rx:
+            # errors as values: the function hands back an exception instance (a finding, a soft error) instead of raising it
+            return EXC[rx[0]](*rx[1])
         out = payload.value if getattr(payload, "ret", None) == "raw" else [payload.value, list(args), sorted(kwargs.items())]
         return Opaque(out) if getattr(payload, "nopickle", None) else out
     _raise(payload.exc, payload.exc_args, getattr(payload, "chain", None), runtime_class=bool(getattr(payload, "nopickle", None)))
@@ -252,7 +258,12 @@ def gen_spec(seed: int, config: str | None = None) -> dict:
                 p["raises"] = [rng.choice(CAPTURABLE)]
         if entry == "visual_legacy":
             p["raises"] = []
-        if rng.random() < 0.03 and entry != "visual_legacy":
+        if p["behave"] == "ok" and rng.random() < 0.04 and entry != "visual_legacy":
+            # the function RETURNS an exception instance as its outcome; declared in raises() or not, it is an outcome
+            name = rng.choice(["ValueError", "KeyError", "OSError", "CustomParseError", "RecursionError", "LookupError"])
+            p["retexc"] = [name, rng.choice([[], [f"finding{k}"], ["two", k]])]
+            p["raises"] = rng.choice([[name], [name], [SUPER.get(name, "Exception")], ["Exception"], [], ["ZeroDivisionError"]])
+        if rng.random() < 0.03 and entry != "visual_legacy" and not p.get("retexc"):
             # the outcome (or the captured exception) cannot be pickled: with a process pool the loop may raise a pickling
             # error, but it must still not hand out anything twice or wrong
             p["nopickle"] = "outcome" if p["behave"] == "ok" else "exception"
@@ -323,6 +334,8 @@ def expected(spec: dict, p: dict):
     pick = PICKABLE[spec["pickable"]] or (lambda x: x)
     if p["behave"] == "ok":
         out = p["value"] if p.get("ret") == "raw" else [p["value"], list(spec["extra_args"]), sorted(spec["extra_kwargs"].items())]
+        if p.get("retexc"):
+            out = EXC[p["retexc"][0]](*p["retexc"][1])
         if p.get("nopickle"):
             out = Opaque(out)
         return canon(pick(out)), None
@@ -356,7 +369,8 @@ def build_payloads(spec: dict):
         text = f"line {p['key']}\n// c\n\n"
         kw = dict(key=p["key"], behave=p["behave"], value=p["value"], exc=p["exc"],
                   exc_args=tuple(p["exc_args"]), raises_names=tuple(p["raises"]), ret=p.get("ret", "wrapped"), chain=p.get("chain"), deep=p.get("deep", 0),
-                  raises_late=None if p.get("raises_late") is None else tuple(p["raises_late"]), nopickle=p.get("nopickle"))
+                  raises_late=None if p.get("raises_late") is None else tuple(p["raises_late"]), nopickle=p.get("nopickle"),
+                  retexc=None if not p.get("retexc") else (p["retexc"][0], tuple(p["retexc"][1])))
         if p["cls"] == "visual":
             out.append(VisPayload(path=path, payload=text, **kw))
         else:
@@ -751,6 +765,10 @@ def shrink_candidates(spec: dict):
         if p.get("nopickle"):
             s = copy.deepcopy(spec)
             s["payloads"][i].pop("nopickle")
+            yield s
+        if p.get("retexc"):
+            s = copy.deepcopy(spec)
+            s["payloads"][i].pop("retexc")
             yield s
         if p.get("ret") == "raw":
             s = copy.deepcopy(spec)
